@@ -6,6 +6,8 @@ import json, sys
 
 pid, tag = sys.argv[1], sys.argv[2]
 rnd = int(sys.argv[3]) if len(sys.argv) > 3 else 1
+focus = sys.argv[4] if len(sys.argv) > 4 else ''
+
 prop = None
 for l in open('/verif/properties.jsonl'):
     d = json.loads(l)
@@ -19,6 +21,9 @@ SECOND ROUND NOTE: a first, fairly direct attempt at this has already been made 
 """,
     3: """
 THIRD ROUND NOTE: two attempts have already been made by other people - one direct, one built on a threshold / non-ASCII / caching idea in the most obvious function for this property. Find a THIRD mechanism. Before you choose, read the code the property is anchored in and list (in notes.md) at least four distinct places where the property could be broken; then pick the one that is LEAST likely to have been chosen already: a helper that the obvious function relies on, a second code path that must agree with the first (library vs CLI vs WASM bindings in blots-wasm/src/lib.rs; the parser's grammar in blots-core/src/grammar.pest; the value / heap / environment layer), a clause of the statement other than its headline, or a combination of two language features. The breakage should need a specific, describable input shape to show (say exactly which), and everything else should keep working. Avoid one-line operator / constant flips and avoid anything an everyday program would expose at once.
+""",
+    4: """
+FOURTH ROUND NOTE: three attempts have already been made by other people, mostly in the most obvious function for this property. This time the place is fixed for you - FOCUS: """ + focus + """. Read that code closely, list (in notes.md) at least four distinct ways in which a change THERE could break the property, and pick the one that needs the most specific input to show and is the least likely to be noticed in review. The breakage should need a specific, describable input shape (say exactly which), and everything else should keep working. Avoid one-line operator / constant flips and anything an everyday program would expose at once. If, after reading, you are convinced that no change in the focus area can break this property while the 435 tests still pass, say so in notes.md and choose the nearest place where one can.
 """,
 }
 text = f"""You are helping to evaluate how well a verification suite detects regressions in the open-source project paul-russo/blots-lang (Blots: a small expression-oriented language written in Rust: pest grammar, tree-walking evaluator, formatter, CLI, WASM bindings).
